@@ -429,7 +429,11 @@ def regular_file_obligations(ctx, rep, rule="R12c"):
                 and m.name not in ("write", "prepare", "getentry", "canhandlerequest", "getdirlist") else None
         else:
             single_caller = None
-        paths = collect_site_paths(prog, ctx.resolver, m, C, {id(c) for c in sites}, inline=lambda fn, t, d: False)
+        # small predicate helpers of the class (`def _isfoo(self): return a and b and c`) are part of the test they are used in
+        def _pred(fn, t, d):
+            body = [x for x in fn.node.body if not (isinstance(x, ast.Expr) and isinstance(x.value, ast.Constant))]
+            return d < 2 and t.bound_cls is not None and len(body) <= 2 and isinstance(body[-1], ast.Return) and fn.name not in ("getselector", "getentry")
+        paths = collect_site_paths(prog, ctx.resolver, m, C, {id(c) for c in sites}, inline=_pred, fork_returns=True)
         rerooted = None
         is_handler = hb is not None and prog.is_subclass(C, hb)
         acc = accept_paths(prog, ctx.resolver, C) if is_handler and m.name not in ("__init__", "canhandlerequest", "isrequestsecure") else None
